@@ -121,7 +121,7 @@ theorem setP_snoc (t : Node) (pp : List Nat) (i : Nat) (parent x : Node) (h : ge
 
 theorem increment_err_keeps (c v : Node) (h : (increment c v).2 ≠ .ok) : (increment c v).1 = c := by
   unfold increment at *
-  cases v <;> cases c <;> simp_all
+  cases v <;> cases c <;> first | (simp_all; done) | (dsimp only at *; split <;> simp_all)
 
 /-! ### increment -/
 
